@@ -54,6 +54,15 @@ func gen(c *hmain.Ctx) {
 		add("lost-wakeup", 10, LostWakeup(10, 30))
 		add("lost-wakeup", 11, LostWakeup(11, 30))
 	}
+	// 1b. directed: a getter that is surely asleep (registered 15 ms ago) must be woken by back() itself,
+	//     not by the heartbeat (400 ms): the mechanism "back() broadcasts" of C04
+	for i := 0; i < 2*c.Scale; i++ {
+		for _, kind := range []int{10, 11} {
+			holder := hx.L(op(0), op(2, 20), op(1))
+			getter := hx.L(op(2, 5), op(0), op(1))
+			add("prompt-wakeup", kind, mkCase(kind, 1, 400, nil, []hx.Sx{holder, getter}))
+		}
+	}
 	// 2. small scope, exhaustive over scripts (not over schedules): capacity 1..2, 2..3 goroutines,
 	//    1..2 rounds of get/back each, with or without a pause while holding
 	for _, kind := range []int{10, 11} {
@@ -133,13 +142,13 @@ func gen(c *hmain.Ctx) {
 		}
 		return mkCase(kind, capacity, 30, gates, ths)
 	}
-	for i := 0; i < 260*c.Scale; i++ {
+	for i := 0; i < 1600*c.Scale; i++ {
 		kind := 10 + i%2
 		add("random", kind, randomCase(kind, nil, false, false))
 	}
 	// 4. random with goroutines parked inside the windows (check -> Wait, Inc -> capacity test,
 	//    CAS won -> slot read) and released by an extra goroutine
-	for i := 0; i < 80*c.Scale; i++ {
+	for i := 0; i < 500*c.Scale; i++ {
 		kind := 10 + i%2
 		var gates []int
 		if kind == 10 {
@@ -150,7 +159,7 @@ func gen(c *hmain.Ctx) {
 		add("gated", kind, randomCase(kind, gates, true, false))
 	}
 	// 5. adversarial: maximal contention, no pauses longer than a Gosched
-	for i := 0; i < 60*c.Scale; i++ {
+	for i := 0; i < 400*c.Scale; i++ {
 		kind := 10 + i%2
 		add("contention", kind, randomCase(kind, nil, false, true))
 	}
